@@ -51,12 +51,16 @@ func DecodeU(u [32]byte) *big.Int {
 // most `bits` bits with the RFC 7748 ladder, returning (x_2, z_2) before the final division,
 // so that callers can distinguish the point at infinity (z_2 = 0).
 func Ladder(k, u *big.Int, bits int) (x2, z2 *big.Int) {
-	mod := func(x *big.Int) *big.Int { return x.Mod(x, P) }
 	x1 := new(big.Int).Mod(u, P)
 	x2 = big.NewInt(1)
 	z2 = big.NewInt(0)
 	x3 := new(big.Int).Set(x1)
 	z3 := big.NewInt(1)
+	// Temporaries are allocated once and reused (math/big allows a receiver to alias an
+	// operand). Sums and differences are left unreduced (possibly negative); every product
+	// is reduced with the Euclidean Mod, so all stored coordinates are in [0,p).
+	var A, AA, B, BB, E, C, D, DA, CB, t1, t2, q big.Int
+	mulmod := func(dst, x, y *big.Int) { t1.Mul(x, y); q.DivMod(&t1, P, dst) } // dst = x*y mod p, in [0,p)
 	swap := uint(0)
 	for t := bits - 1; t >= 0; t-- {
 		kt := k.Bit(t)
@@ -67,26 +71,24 @@ func Ladder(k, u *big.Int, bits int) (x2, z2 *big.Int) {
 		}
 		swap = kt
 
-		// Sums and differences are left unreduced (possibly negative); every product is
-		// reduced with the Euclidean Mod, so all stored coordinates are in [0,p).
-		A := new(big.Int).Add(x2, z2)
-		AA := mod(new(big.Int).Mul(A, A))
-		B := new(big.Int).Sub(x2, z2)
-		BB := mod(new(big.Int).Mul(B, B))
-		E := new(big.Int).Sub(AA, BB)
-		C := new(big.Int).Add(x3, z3)
-		D := new(big.Int).Sub(x3, z3)
-		DA := mod(new(big.Int).Mul(D, A))
-		CB := mod(new(big.Int).Mul(C, B))
-		s := new(big.Int).Add(DA, CB)
-		x3 = mod(s.Mul(s, s))
-		d := new(big.Int).Sub(DA, CB)
-		d = mod(d.Mul(d, d))
-		z3 = mod(d.Mul(d, x1))
-		x2 = mod(new(big.Int).Mul(AA, BB))
-		e := new(big.Int).Mul(a24, E)
-		e.Add(e, AA)
-		z2 = mod(e.Mul(e, E))
+		A.Add(x2, z2)
+		mulmod(&AA, &A, &A)
+		B.Sub(x2, z2)
+		mulmod(&BB, &B, &B)
+		E.Sub(&AA, &BB)
+		C.Add(x3, z3)
+		D.Sub(x3, z3)
+		mulmod(&DA, &D, &A)
+		mulmod(&CB, &C, &B)
+		t2.Add(&DA, &CB)
+		mulmod(x3, &t2, &t2) // x_3 = (DA + CB)^2
+		t2.Sub(&DA, &CB)
+		mulmod(&t2, &t2, &t2)
+		mulmod(z3, x1, &t2)  // z_3 = x_1 * (DA - CB)^2
+		mulmod(x2, &AA, &BB) // x_2 = AA * BB
+		t2.Mul(a24, &E)
+		t2.Add(&t2, &AA)
+		mulmod(z2, &E, &t2) // z_2 = E * (AA + a24 * E)
 	}
 	if swap == 1 {
 		x2, x3 = x3, x2
